@@ -44,6 +44,9 @@ func init() {
 	pr.wReset, pr.wProbe, pr.wCfg, pr.wParseNil = 1, 0, 0, 0
 	pr.badCfgPct = 0
 	suites["p-runs"] = pSuite(pr, []string{"p.runblock"})
+	for _, k := range allKinds {
+		suites["p-runs-"+k] = pSuite(pr.withKinds(k), []string{"p.runblock"})
+	}
 	pg := profGeneral.withKinds("GSAP")
 	pg.bigWin = true
 	pg.wParseNil = 0
